@@ -50,7 +50,7 @@ IsReq(c, m) == m.name \in RequiredOf(c.kind, c.fl)
 WildNF(m, req) == m.cls \in (NFClasses(m.vt, req) \cap {"str", "emptyStr", "true", "zero", "strArr", "obj"})
                   /\ ~(m.vt \in {"bool"} /\ m.cls # "true")
 NF(c) == IF c.fam = "wild" THEN FALSE        \* wild inputs are judged for totality / idempotence only
-         ELSE IF c.fam \in {"payload", "odd", "extcase", "casefold"} THEN FALSE
+         ELSE IF c.fam \in {"payload", "odd", "oddkeys", "extcase", "casefold"} THEN FALSE
          ELSE \A m \in Members(c) : m.cls \in NFClasses(m.vt, IsReq(c, m))
 
 \* ---------------------------------------------------------------- C15 scope
@@ -87,7 +87,7 @@ Verdict(o) ==
        c07total |-> PF(TRUE, o.outcome \in {"ok", "decode-error", "encode-error"}),
        c07idem  |-> PF(ok /\ o.case.fam # "casefold", o.idem),
        c07bytes |-> PF(o.nmut > 0, o.mutbad = <<>>),
-       c14 |-> PF(ok /\ o.gob # "na" /\ (nf \/ o.case.fam \in {"payload", "odd", "extcase"}), o.gob = "eq"),
+       c14 |-> PF(ok /\ o.gob # "na" /\ (nf \/ o.case.fam \in {"payload", "odd", "oddkeys", "extcase"}), o.gob = "eq"),
        c15 |-> PF(ok /\ o.nptr > 0, bad15 = {}),
        \* C19: validin / validrt / validexp are the verdicts of the JSON-schema validator (instrument)
        \* on the source, on its re-encoding and on its expansion: "t" | "f" | "n" (not produced)
